@@ -54,6 +54,7 @@ var programs = map[string]func() *progs.Prog{
 	"twostages-1-4-6": func() *progs.Prog { return progs.TwoStages(1, 4, 6) },
 	"twostages-1-2-3": func() *progs.Prog { return progs.TwoStages(1, 2, 3) },
 	"samestage-1-7-3": func() *progs.Prog { return progs.SameStage(1, 7, 3) },
+	"samestage-0-3-0": func() *progs.Prog { return progs.SameStage(0, 3, 0) },
 	"index":           func() *progs.Prog { return progs.Index() },
 	"clocksparse2-2":  func() *progs.Prog { return progs.ClockSparse2(2) },
 }
@@ -392,6 +393,7 @@ func Run(ctx *core.Ctx) int {
 		{Prog: "storemap-0-0", Seg: 5, Prod: true, Start: 6, Stop: 12, Final: 10},
 		{Prog: "twostages-0-0-0", Seg: 5, Prod: true, Start: 2, Stop: 6, Final: 5},
 		{Prog: "samestage-1-7-3", Seg: 4, Prod: false, Start: 9, Stop: 11, Final: -1},
+		{Prog: "samestage-0-3-0", Seg: 4, Prod: false, Start: 9, Stop: 11, Final: -1}, // two stores of one stage that share a whole segment
 		{Prog: "index", Seg: 4, Prod: true, Start: 5, Stop: 9, Final: 8},
 		{Prog: "storemap-2-3", Seg: 3, Prod: true, Start: 4, Stop: 11, Final: 9},
 		{Prog: "twostages-1-4-6", Seg: 5, Prod: true, Start: 7, Stop: 13, Final: 10},
